@@ -172,7 +172,7 @@ fn ngs_set(i: usize, tag: &str) -> GearSet {
     GearSet { index: i as u8, name: format!("{tag}{i}"), unknown1: 0, slots, facewear: if i % 3 == 0 { Some(9000 + i as u32) } else { None } }
 }
 
-//@unit props=C09 label=B tier=quick native=1 fn=gearsets::GearSets::{write_to_buffer,from_existing},gearsets::{convert_to_gearsets,convert_from_gearsets,convert_to_slots,convert_from_slots} bound="by execution: 100-entry tables with one set at each position 0..99, with two sets at (p, (p+37) mod 100), and the full table"
+//@unit props=C09 label=B tier=quick native=1 fn=gearsets::GearSets::{write_to_buffer,from_existing},gearsets::{convert_to_gearsets,convert_from_gearsets,convert_to_slots,convert_from_slots} bound="by execution: a canonical file with non-zero words after the glamour id of every occupied slot, reproduced byte for byte; 100-entry tables with one set at each position 0..99, with two sets at (p, (p+37) mod 100), and the full table"
 //@desc a written gear-set file is the 17-byte header followed by 4 + 100 x 452 content bytes XORed with 0x73; the set at table position p is stored in record p (index byte, name at +1, slot s at +56+28s with the item id + 1000000) and every position, name, slot item, glamour and facewear reads back where it was put; empty positions read back empty
 #[test]
 fn native_gearsets_positions() {
@@ -226,6 +226,21 @@ fn native_gearsets_positions() {
                 _ => panic!("position {p}: occupied/empty state changed by the round trip"),
             }
         }
+        cases += 1;
+    }
+    // a canonical file whose occupied slots carry non-zero values in the five words after the glamour id (dyes etc.) is reproduced byte for byte
+    {
+        let t: Vec<Option<GearSet>> = (0..100).map(|p| if p % 3 == 0 { Some(ngs_set(p, "dyed")) } else { None }).collect();
+        let mut c = GearSets { unknown1: 0, current_gearset: 9, unknown3: 0, gearsets: t.clone() }.write_to_buffer().expect("write");
+        for p in (0..100usize).filter(|p| p % 3 == 0) {
+            if let Some(set) = &t[p] { for (ty, _) in set.slots.iter() {
+                let o = 17 + 4 + 452 * p + 56 + 28 * (ty.clone() as usize);
+                for w in 0..5usize { let v = (0x0101_0000u32 + (p as u32) * 64 + (ty.clone() as u32) * 5 + w as u32).to_le_bytes(); for k in 0..4 { c[o + 8 + 4 * w + k] = v[k] ^ 0x73; } }
+            } }
+        }
+        let parsed = GearSets::from_existing(&c).expect("the canonical file parses");
+        let again = parsed.write_to_buffer().expect("write");
+        assert!(again == c, "a parsed canonical gear-set file is reproduced byte for byte (first difference at {:?})", again.iter().zip(c.iter()).position(|(a, b)| a != b));
         cases += 1;
     }
     println!("NATIVE native_gearsets_positions cases={cases}");
